@@ -419,6 +419,13 @@ def handle (j : Json) : Except String Json := do
     let c := Cache.sexec (fun t => users.getD t dflt) (← getNatList j "sched") (Cache.sinit ⟨none, 0⟩)
     return Json.mkObj [("errors", c.sc.errors),
       ("pcs", Json.arr ((List.range n).map fun t => Json.str (spcStr (c.pc t))).toArray)]
+  | "xcexec" =>
+    let n ← getNat j "threads"
+    let vals ← (← getArr j "vals").toList.mapM fun x => do (← x.getArr?).toList.mapM (·.getNat?)
+    let c := Cache.xexec (← getBool j "shared") (← getNat j "gap") (← getNatList j "sched") (Cache.xinit (fun t => vals.getD t []))
+    return Json.mkObj [("res", Json.arr ((List.range n).map fun t =>
+      Json.arr ((c.th t).res.map fun (v : Nat) => Json.num v).toArray).toArray),
+      ("finished", Json.arr ((List.range n).map fun t => Json.bool (c.th t).finished).toArray)]
   | op => throw s!"unknown op {op}"
 
 end XsVerif.Driver.C18
